@@ -596,4 +596,33 @@ example : rowDict opsW 1 (some "y") (some (.bin "and" mA1 (.bin ">" (.col ["t"] 
 example : whereFilters opsW 0 (some (.bin "and" mA1 (.bin ">" (.col ["t"] "b") (.const "2"))))
     = [.bin ">" (.col [] "b") (.const "2")] := by decide
 
+/-! ### [review] instances through `plan` -/
+
+-- [review] one whole plan through `plan` (hypothesis of `C14_1_plan`) on which every clause says something:
+-- `SELECT t.a FROM int1.t1 t JOIN mindsdb.pred m WHERE m.a = 1 AND t.b > 2 LIMIT 3 USING M.k = 'v'`
+def qRev : Query :=
+  { ops := opsW, wh := some (.bin "and" mA1 (.bin ">" (.col ["t"] "b") (.const "2"))), using? := some [("M.k", "v")],
+    info := qRows, others := [.col ["t"] "a"] }
+
+example : plan qRev = .ok
+    [.fetch 0 (some (.bin ">" (.col [] "b") (.const "2"))) { limit := some "3" },
+     .apply 1 (.top 0) (some [("a", "1")]) (some [("k", "v")]) none,
+     .join (.top 0) (.top 1) "JOIN" none,
+     .query (.top 2) (some (.bin "and" (zeroEq "=") (.bin ">" (.col ["t"] "b") (.const "2")))) (some "3") none] := by
+  rfl
+
+-- [review] `C14_1_plan` applied to it
+example : ∃ steps ops, plan qRev = .ok steps ∧ rewriteOn qRev.ops qRev.ops = some ops ∧
+    ((appliesOf steps).map (·.1)).Perm (modelIdx ops) ∧
+    ∀ ir ∈ appliesOf steps, isModAt ops ir.1 = true ∧ Holds steps ir.2 (leftOf ops ir.1) := by
+  obtain ⟨ops, h1, _, h3, h4⟩ := C14_1_plan qRev _ rfl
+  exact ⟨_, ops, rfl, h1, h3, h4⟩
+
+-- [review] `C14_limit_plain_row` applied to a plan in which a fetch DOES carry the LIMIT (hypotheses `hm`, `hl` met)
+example : qRows.having = false ∧ qRows.groupBy = false ∧ qRows.distinct = false ∧
+    ∀ t ∈ qRows.targets, ∀ n ∈ nodes t, isAggNode n = false :=
+  C14_limit_plain_row opsW none none 0 qRows
+    [.fetch 0 none { limit := some "3" }, .apply 1 (.top 0) none none none, .join (.top 0) (.top 1) "JOIN" none,
+     .query (.top 2) none (some "3") none] rfl 0 none { limit := some "3" } (List.Mem.head _) rfl
+
 end MindsVerif.Props.C14
